@@ -173,12 +173,12 @@ def run_property(prop: str, tier: str, runfn, explanation: str, root: str,
                        f"    at {ob.site}\n    {ob.msg}"
                        + (f"\n    witness: {ob.witness}" if ob.witness is not None else ""))
             out.append(f"VIOLATION property={prop} replay={rp}")
-    if status == 0 and nviol:
-        status = 1
     if status == 2:
         out.append(f"ANALYSIS-ERROR property={prop} {err}")
-        # partial results are not believed: report no violations from a broken run
-        out = [l for l in out if not l.startswith(("VIOLATION", "FINDING"))]
+        # a violation already established on a named construct stands even if a later part of the
+        # analysis could not be completed; without one the run is analysis-broken (exit 2)
+    if nviol:
+        status = 1
 
     wall = time.time() - t0
     rules = {}
